@@ -189,6 +189,39 @@ func c07HeadFallback(c *core.Ctx, m *errModel) {
 			}
 		}
 	}
+	// or: the result is looked up, by resp.StatusCode, in a frozen package-level
+	// map[int]error whose literal supplies the rows
+	for _, b := range fn.Blocks {
+		for _, in := range b.Instrs {
+			lk, ok := in.(*ssa.Lookup)
+			if !ok {
+				continue
+			}
+			if _, fld, isF := facts.FieldOf(facts.Resolve(lk.Index)); !isF || fld != "StatusCode" {
+				continue
+			}
+			g := loadedGlobal(lk.X)
+			if g == nil {
+				continue
+			}
+			entries, frozen := globalMapEntries(c, g)
+			if !frozen {
+				c.Fail("C07.R2", "head-fallback/table-frozen", lk.Pos(), "the HEAD status -> error table is modified after initialisation")
+				continue
+			}
+			for _, e := range entries {
+				name := errGlobalOf(e.Val)
+				st, isK := facts.ConstInt(e.Key)
+				if name == "" || !isK {
+					continue
+				}
+				n++
+				tbl, has := m.StatusOf[name]
+				c.Check(has && tbl == st, "C07.R2", sprintf("head-fallback/%d", st), e.Pos, sprintf("HEAD %d -> %s, whose code maps back to %d", st, name, st),
+					sprintf("the HEAD fallback maps status %d to %s, whose code is answered with status %d by the server: a second hop changes the status", st, name, tbl))
+			}
+		}
+	}
 	for _, rw := range rows {
 		name := errGlobalOf(rw.v)
 		if name == "" {
